@@ -45,90 +45,132 @@ vpv_cell!(#[kani::stub(eval_filter_expr, stub_eval_filter_expr)] #[kani::stub(co
 vpv_cell!(#[kani::stub(eval_filter_expr, stub_eval_filter_expr)] #[kani::stub(collect_emitted_event, stub_collect_emitted_event)] #[kani::stub(call_user_function, stub_call_user_function)] c09_eq_float_float, "C09/Eq/Float-Float", (a: f64, b: f64), { agree(0, Expr::Float(a), Expr::Float(b)) });
 vpv_cell!(#[kani::stub(eval_filter_expr, stub_eval_filter_expr)] #[kani::stub(collect_emitted_event, stub_collect_emitted_event)] #[kani::stub(call_user_function, stub_call_user_function)] #[kani::unwind(6)] c09_eq_str_str, "C09/Eq/Str-Str", (a: u8, b: u8), { agree(0, Expr::Str(ascii1(a)), Expr::Str(ascii1(b))) });
 vpv_cell!(#[kani::stub(eval_filter_expr, stub_eval_filter_expr)] #[kani::stub(collect_emitted_event, stub_collect_emitted_event)] #[kani::stub(call_user_function, stub_call_user_function)] c09_eq_bool_bool, "C09/Eq/Bool-Bool", (a: bool, b: bool), { agree(0, Expr::Bool(a), Expr::Bool(b)) });
-vpv_cell!(#[kani::stub(eval_filter_expr, stub_eval_filter_expr)] #[kani::stub(collect_emitted_event, stub_collect_emitted_event)] #[kani::stub(call_user_function, stub_call_user_function)] #[kani::unwind(6)] c09_eq_int_str, "C09/Eq/Int-Str", (a: i64, b: u8), { agree(0, Expr::Int(a), Expr::Str(ascii1(b))) });
-vpv_cell!(#[kani::stub(eval_filter_expr, stub_eval_filter_expr)] #[kani::stub(collect_emitted_event, stub_collect_emitted_event)] #[kani::stub(call_user_function, stub_call_user_function)] #[kani::unwind(6)] c09_eq_str_int, "C09/Eq/Str-Int", (a: u8, b: i64), { agree(0, Expr::Str(ascii1(a)), Expr::Int(b)) });
-vpv_cell!(#[kani::stub(eval_filter_expr, stub_eval_filter_expr)] #[kani::stub(collect_emitted_event, stub_collect_emitted_event)] #[kani::stub(call_user_function, stub_call_user_function)] c09_eq_bool_int, "C09/Eq/Bool-Int", (a: bool, b: i64), { agree(0, Expr::Bool(a), Expr::Int(b)) });
-vpv_cell!(#[kani::stub(eval_filter_expr, stub_eval_filter_expr)] #[kani::stub(collect_emitted_event, stub_collect_emitted_event)] #[kani::stub(call_user_function, stub_call_user_function)] c09_eq_int_bool, "C09/Eq/Int-Bool", (a: i64, b: bool), { agree(0, Expr::Int(a), Expr::Bool(b)) });
-vpv_cell!(#[kani::stub(eval_filter_expr, stub_eval_filter_expr)] #[kani::stub(collect_emitted_event, stub_collect_emitted_event)] #[kani::stub(call_user_function, stub_call_user_function)] c09_eq_null_int, "C09/Eq/Null-Int", (b: i64), { agree(0, Expr::Null, Expr::Int(b)) });
-vpv_cell!(#[kani::stub(eval_filter_expr, stub_eval_filter_expr)] #[kani::stub(collect_emitted_event, stub_collect_emitted_event)] #[kani::stub(call_user_function, stub_call_user_function)] c09_eq_int_null, "C09/Eq/Int-Null", (a: i64), { agree(0, Expr::Int(a), Expr::Null) });
-vpv_cell!(#[kani::stub(eval_filter_expr, stub_eval_filter_expr)] #[kani::stub(collect_emitted_event, stub_collect_emitted_event)] #[kani::stub(call_user_function, stub_call_user_function)] c09_eq_null_null, "C09/Eq/Null-Null", (), { agree(0, Expr::Null, Expr::Null) });
-vpv_cell!(#[kani::stub(eval_filter_expr, stub_eval_filter_expr)] #[kani::stub(collect_emitted_event, stub_collect_emitted_event)] #[kani::stub(call_user_function, stub_call_user_function)] #[kani::unwind(6)] c09_eq_float_str, "C09/Eq/Float-Str", (a: f64, b: u8), { agree(0, Expr::Float(a), Expr::Str(ascii1(b))) });
-vpv_cell!(#[kani::stub(eval_filter_expr, stub_eval_filter_expr)] #[kani::stub(collect_emitted_event, stub_collect_emitted_event)] #[kani::stub(call_user_function, stub_call_user_function)] #[kani::unwind(6)] c09_eq_str_bool, "C09/Eq/Str-Bool", (a: u8, b: bool), { agree(0, Expr::Str(ascii1(a)), Expr::Bool(b)) });
+vpv_cell!(#[kani::stub(eval_filter_expr, stub_eval_filter_expr)] #[kani::stub(collect_emitted_event, stub_collect_emitted_event)] #[kani::stub(call_user_function, stub_call_user_function)] #[kani::unwind(6)] c09_eq_mismatched_kinds, "C09/Eq/operands of different kinds (13 kind pairs: Int/Float/Bool/Str/Null mixed)", (i: i64, f: f64, b: bool, c: u8), {
+    let mut ok = true;
+    ok = ok && agree(0, Expr::Int(i), Expr::Str(ascii1(c)));   // Int-Str
+    ok = ok && agree(0, Expr::Str(ascii1(c)), Expr::Int(i));   // Str-Int
+    ok = ok && agree(0, Expr::Bool(b), Expr::Int(i));   // Bool-Int
+    ok = ok && agree(0, Expr::Int(i), Expr::Bool(b));   // Int-Bool
+    ok = ok && agree(0, Expr::Null, Expr::Int(i));   // Null-Int
+    ok = ok && agree(0, Expr::Int(i), Expr::Null);   // Int-Null
+    ok = ok && agree(0, Expr::Null, Expr::Null);   // Null-Null
+    ok = ok && agree(0, Expr::Float(f), Expr::Str(ascii1(c)));   // Float-Str
+    ok = ok && agree(0, Expr::Str(ascii1(c)), Expr::Bool(b));   // Str-Bool
+    ok = ok && agree(0, Expr::Float(f), Expr::Bool(b));   // Float-Bool
+    ok = ok && agree(0, Expr::Bool(b), Expr::Float(f));   // Bool-Float
+    ok = ok && agree(0, Expr::Null, Expr::Float(f));   // Null-Float
+    ok = ok && agree(0, Expr::Float(f), Expr::Null);   // Float-Null
+    ok });
 vpv_cell!(#[kani::stub(eval_filter_expr, stub_eval_filter_expr)] #[kani::stub(collect_emitted_event, stub_collect_emitted_event)] #[kani::stub(call_user_function, stub_call_user_function)] c09_noteq_int_int, "C09/NotEq/Int-Int", (a: i64, b: i64), { agree(1, Expr::Int(a), Expr::Int(b)) });
 vpv_cell!(#[kani::stub(eval_filter_expr, stub_eval_filter_expr)] #[kani::stub(collect_emitted_event, stub_collect_emitted_event)] #[kani::stub(call_user_function, stub_call_user_function)] c09_noteq_int_float, "C09/NotEq/Int-Float", (a: i64, b: f64), { agree(1, Expr::Int(a), Expr::Float(b)) });
 vpv_cell!(#[kani::stub(eval_filter_expr, stub_eval_filter_expr)] #[kani::stub(collect_emitted_event, stub_collect_emitted_event)] #[kani::stub(call_user_function, stub_call_user_function)] c09_noteq_float_int, "C09/NotEq/Float-Int", (a: f64, b: i64), { agree(1, Expr::Float(a), Expr::Int(b)) });
 vpv_cell!(#[kani::stub(eval_filter_expr, stub_eval_filter_expr)] #[kani::stub(collect_emitted_event, stub_collect_emitted_event)] #[kani::stub(call_user_function, stub_call_user_function)] c09_noteq_float_float, "C09/NotEq/Float-Float", (a: f64, b: f64), { agree(1, Expr::Float(a), Expr::Float(b)) });
 vpv_cell!(#[kani::stub(eval_filter_expr, stub_eval_filter_expr)] #[kani::stub(collect_emitted_event, stub_collect_emitted_event)] #[kani::stub(call_user_function, stub_call_user_function)] #[kani::unwind(6)] c09_noteq_str_str, "C09/NotEq/Str-Str", (a: u8, b: u8), { agree(1, Expr::Str(ascii1(a)), Expr::Str(ascii1(b))) });
 vpv_cell!(#[kani::stub(eval_filter_expr, stub_eval_filter_expr)] #[kani::stub(collect_emitted_event, stub_collect_emitted_event)] #[kani::stub(call_user_function, stub_call_user_function)] c09_noteq_bool_bool, "C09/NotEq/Bool-Bool", (a: bool, b: bool), { agree(1, Expr::Bool(a), Expr::Bool(b)) });
-vpv_cell!(#[kani::stub(eval_filter_expr, stub_eval_filter_expr)] #[kani::stub(collect_emitted_event, stub_collect_emitted_event)] #[kani::stub(call_user_function, stub_call_user_function)] #[kani::unwind(6)] c09_noteq_int_str, "C09/NotEq/Int-Str", (a: i64, b: u8), { agree(1, Expr::Int(a), Expr::Str(ascii1(b))) });
-vpv_cell!(#[kani::stub(eval_filter_expr, stub_eval_filter_expr)] #[kani::stub(collect_emitted_event, stub_collect_emitted_event)] #[kani::stub(call_user_function, stub_call_user_function)] #[kani::unwind(6)] c09_noteq_str_int, "C09/NotEq/Str-Int", (a: u8, b: i64), { agree(1, Expr::Str(ascii1(a)), Expr::Int(b)) });
-vpv_cell!(#[kani::stub(eval_filter_expr, stub_eval_filter_expr)] #[kani::stub(collect_emitted_event, stub_collect_emitted_event)] #[kani::stub(call_user_function, stub_call_user_function)] c09_noteq_bool_int, "C09/NotEq/Bool-Int", (a: bool, b: i64), { agree(1, Expr::Bool(a), Expr::Int(b)) });
-vpv_cell!(#[kani::stub(eval_filter_expr, stub_eval_filter_expr)] #[kani::stub(collect_emitted_event, stub_collect_emitted_event)] #[kani::stub(call_user_function, stub_call_user_function)] c09_noteq_int_bool, "C09/NotEq/Int-Bool", (a: i64, b: bool), { agree(1, Expr::Int(a), Expr::Bool(b)) });
-vpv_cell!(#[kani::stub(eval_filter_expr, stub_eval_filter_expr)] #[kani::stub(collect_emitted_event, stub_collect_emitted_event)] #[kani::stub(call_user_function, stub_call_user_function)] c09_noteq_null_int, "C09/NotEq/Null-Int", (b: i64), { agree(1, Expr::Null, Expr::Int(b)) });
-vpv_cell!(#[kani::stub(eval_filter_expr, stub_eval_filter_expr)] #[kani::stub(collect_emitted_event, stub_collect_emitted_event)] #[kani::stub(call_user_function, stub_call_user_function)] c09_noteq_int_null, "C09/NotEq/Int-Null", (a: i64), { agree(1, Expr::Int(a), Expr::Null) });
-vpv_cell!(#[kani::stub(eval_filter_expr, stub_eval_filter_expr)] #[kani::stub(collect_emitted_event, stub_collect_emitted_event)] #[kani::stub(call_user_function, stub_call_user_function)] c09_noteq_null_null, "C09/NotEq/Null-Null", (), { agree(1, Expr::Null, Expr::Null) });
-vpv_cell!(#[kani::stub(eval_filter_expr, stub_eval_filter_expr)] #[kani::stub(collect_emitted_event, stub_collect_emitted_event)] #[kani::stub(call_user_function, stub_call_user_function)] #[kani::unwind(6)] c09_noteq_float_str, "C09/NotEq/Float-Str", (a: f64, b: u8), { agree(1, Expr::Float(a), Expr::Str(ascii1(b))) });
-vpv_cell!(#[kani::stub(eval_filter_expr, stub_eval_filter_expr)] #[kani::stub(collect_emitted_event, stub_collect_emitted_event)] #[kani::stub(call_user_function, stub_call_user_function)] #[kani::unwind(6)] c09_noteq_str_bool, "C09/NotEq/Str-Bool", (a: u8, b: bool), { agree(1, Expr::Str(ascii1(a)), Expr::Bool(b)) });
+vpv_cell!(#[kani::stub(eval_filter_expr, stub_eval_filter_expr)] #[kani::stub(collect_emitted_event, stub_collect_emitted_event)] #[kani::stub(call_user_function, stub_call_user_function)] #[kani::unwind(6)] c09_noteq_mismatched_kinds, "C09/NotEq/operands of different kinds (13 kind pairs: Int/Float/Bool/Str/Null mixed)", (i: i64, f: f64, b: bool, c: u8), {
+    let mut ok = true;
+    ok = ok && agree(1, Expr::Int(i), Expr::Str(ascii1(c)));   // Int-Str
+    ok = ok && agree(1, Expr::Str(ascii1(c)), Expr::Int(i));   // Str-Int
+    ok = ok && agree(1, Expr::Bool(b), Expr::Int(i));   // Bool-Int
+    ok = ok && agree(1, Expr::Int(i), Expr::Bool(b));   // Int-Bool
+    ok = ok && agree(1, Expr::Null, Expr::Int(i));   // Null-Int
+    ok = ok && agree(1, Expr::Int(i), Expr::Null);   // Int-Null
+    ok = ok && agree(1, Expr::Null, Expr::Null);   // Null-Null
+    ok = ok && agree(1, Expr::Float(f), Expr::Str(ascii1(c)));   // Float-Str
+    ok = ok && agree(1, Expr::Str(ascii1(c)), Expr::Bool(b));   // Str-Bool
+    ok = ok && agree(1, Expr::Float(f), Expr::Bool(b));   // Float-Bool
+    ok = ok && agree(1, Expr::Bool(b), Expr::Float(f));   // Bool-Float
+    ok = ok && agree(1, Expr::Null, Expr::Float(f));   // Null-Float
+    ok = ok && agree(1, Expr::Float(f), Expr::Null);   // Float-Null
+    ok });
 vpv_cell!(#[kani::stub(eval_filter_expr, stub_eval_filter_expr)] #[kani::stub(collect_emitted_event, stub_collect_emitted_event)] #[kani::stub(call_user_function, stub_call_user_function)] c09_lt_int_int, "C09/Lt/Int-Int", (a: i64, b: i64), { agree(2, Expr::Int(a), Expr::Int(b)) });
 vpv_cell!(#[kani::stub(eval_filter_expr, stub_eval_filter_expr)] #[kani::stub(collect_emitted_event, stub_collect_emitted_event)] #[kani::stub(call_user_function, stub_call_user_function)] c09_lt_int_float, "C09/Lt/Int-Float", (a: i64, b: f64), { agree(2, Expr::Int(a), Expr::Float(b)) });
 vpv_cell!(#[kani::stub(eval_filter_expr, stub_eval_filter_expr)] #[kani::stub(collect_emitted_event, stub_collect_emitted_event)] #[kani::stub(call_user_function, stub_call_user_function)] c09_lt_float_int, "C09/Lt/Float-Int", (a: f64, b: i64), { agree(2, Expr::Float(a), Expr::Int(b)) });
 vpv_cell!(#[kani::stub(eval_filter_expr, stub_eval_filter_expr)] #[kani::stub(collect_emitted_event, stub_collect_emitted_event)] #[kani::stub(call_user_function, stub_call_user_function)] c09_lt_float_float, "C09/Lt/Float-Float", (a: f64, b: f64), { agree(2, Expr::Float(a), Expr::Float(b)) });
 vpv_cell!(#[kani::stub(eval_filter_expr, stub_eval_filter_expr)] #[kani::stub(collect_emitted_event, stub_collect_emitted_event)] #[kani::stub(call_user_function, stub_call_user_function)] #[kani::unwind(6)] c09_lt_str_str, "C09/Lt/Str-Str", (a: u8, b: u8), { agree(2, Expr::Str(ascii1(a)), Expr::Str(ascii1(b))) });
 vpv_cell!(#[kani::stub(eval_filter_expr, stub_eval_filter_expr)] #[kani::stub(collect_emitted_event, stub_collect_emitted_event)] #[kani::stub(call_user_function, stub_call_user_function)] c09_lt_bool_bool, "C09/Lt/Bool-Bool", (a: bool, b: bool), { agree(2, Expr::Bool(a), Expr::Bool(b)) });
-vpv_cell!(#[kani::stub(eval_filter_expr, stub_eval_filter_expr)] #[kani::stub(collect_emitted_event, stub_collect_emitted_event)] #[kani::stub(call_user_function, stub_call_user_function)] #[kani::unwind(6)] c09_lt_int_str, "C09/Lt/Int-Str", (a: i64, b: u8), { agree(2, Expr::Int(a), Expr::Str(ascii1(b))) });
-vpv_cell!(#[kani::stub(eval_filter_expr, stub_eval_filter_expr)] #[kani::stub(collect_emitted_event, stub_collect_emitted_event)] #[kani::stub(call_user_function, stub_call_user_function)] #[kani::unwind(6)] c09_lt_str_int, "C09/Lt/Str-Int", (a: u8, b: i64), { agree(2, Expr::Str(ascii1(a)), Expr::Int(b)) });
-vpv_cell!(#[kani::stub(eval_filter_expr, stub_eval_filter_expr)] #[kani::stub(collect_emitted_event, stub_collect_emitted_event)] #[kani::stub(call_user_function, stub_call_user_function)] c09_lt_bool_int, "C09/Lt/Bool-Int", (a: bool, b: i64), { agree(2, Expr::Bool(a), Expr::Int(b)) });
-vpv_cell!(#[kani::stub(eval_filter_expr, stub_eval_filter_expr)] #[kani::stub(collect_emitted_event, stub_collect_emitted_event)] #[kani::stub(call_user_function, stub_call_user_function)] c09_lt_int_bool, "C09/Lt/Int-Bool", (a: i64, b: bool), { agree(2, Expr::Int(a), Expr::Bool(b)) });
-vpv_cell!(#[kani::stub(eval_filter_expr, stub_eval_filter_expr)] #[kani::stub(collect_emitted_event, stub_collect_emitted_event)] #[kani::stub(call_user_function, stub_call_user_function)] c09_lt_null_int, "C09/Lt/Null-Int", (b: i64), { agree(2, Expr::Null, Expr::Int(b)) });
-vpv_cell!(#[kani::stub(eval_filter_expr, stub_eval_filter_expr)] #[kani::stub(collect_emitted_event, stub_collect_emitted_event)] #[kani::stub(call_user_function, stub_call_user_function)] c09_lt_int_null, "C09/Lt/Int-Null", (a: i64), { agree(2, Expr::Int(a), Expr::Null) });
-vpv_cell!(#[kani::stub(eval_filter_expr, stub_eval_filter_expr)] #[kani::stub(collect_emitted_event, stub_collect_emitted_event)] #[kani::stub(call_user_function, stub_call_user_function)] c09_lt_null_null, "C09/Lt/Null-Null", (), { agree(2, Expr::Null, Expr::Null) });
-vpv_cell!(#[kani::stub(eval_filter_expr, stub_eval_filter_expr)] #[kani::stub(collect_emitted_event, stub_collect_emitted_event)] #[kani::stub(call_user_function, stub_call_user_function)] #[kani::unwind(6)] c09_lt_float_str, "C09/Lt/Float-Str", (a: f64, b: u8), { agree(2, Expr::Float(a), Expr::Str(ascii1(b))) });
-vpv_cell!(#[kani::stub(eval_filter_expr, stub_eval_filter_expr)] #[kani::stub(collect_emitted_event, stub_collect_emitted_event)] #[kani::stub(call_user_function, stub_call_user_function)] #[kani::unwind(6)] c09_lt_str_bool, "C09/Lt/Str-Bool", (a: u8, b: bool), { agree(2, Expr::Str(ascii1(a)), Expr::Bool(b)) });
+vpv_cell!(#[kani::stub(eval_filter_expr, stub_eval_filter_expr)] #[kani::stub(collect_emitted_event, stub_collect_emitted_event)] #[kani::stub(call_user_function, stub_call_user_function)] #[kani::unwind(6)] c09_lt_mismatched_kinds, "C09/Lt/operands of different kinds (13 kind pairs: Int/Float/Bool/Str/Null mixed)", (i: i64, f: f64, b: bool, c: u8), {
+    let mut ok = true;
+    ok = ok && agree(2, Expr::Int(i), Expr::Str(ascii1(c)));   // Int-Str
+    ok = ok && agree(2, Expr::Str(ascii1(c)), Expr::Int(i));   // Str-Int
+    ok = ok && agree(2, Expr::Bool(b), Expr::Int(i));   // Bool-Int
+    ok = ok && agree(2, Expr::Int(i), Expr::Bool(b));   // Int-Bool
+    ok = ok && agree(2, Expr::Null, Expr::Int(i));   // Null-Int
+    ok = ok && agree(2, Expr::Int(i), Expr::Null);   // Int-Null
+    ok = ok && agree(2, Expr::Null, Expr::Null);   // Null-Null
+    ok = ok && agree(2, Expr::Float(f), Expr::Str(ascii1(c)));   // Float-Str
+    ok = ok && agree(2, Expr::Str(ascii1(c)), Expr::Bool(b));   // Str-Bool
+    ok = ok && agree(2, Expr::Float(f), Expr::Bool(b));   // Float-Bool
+    ok = ok && agree(2, Expr::Bool(b), Expr::Float(f));   // Bool-Float
+    ok = ok && agree(2, Expr::Null, Expr::Float(f));   // Null-Float
+    ok = ok && agree(2, Expr::Float(f), Expr::Null);   // Float-Null
+    ok });
 vpv_cell!(#[kani::stub(eval_filter_expr, stub_eval_filter_expr)] #[kani::stub(collect_emitted_event, stub_collect_emitted_event)] #[kani::stub(call_user_function, stub_call_user_function)] c09_le_int_int, "C09/Le/Int-Int", (a: i64, b: i64), { agree(3, Expr::Int(a), Expr::Int(b)) });
 vpv_cell!(#[kani::stub(eval_filter_expr, stub_eval_filter_expr)] #[kani::stub(collect_emitted_event, stub_collect_emitted_event)] #[kani::stub(call_user_function, stub_call_user_function)] c09_le_int_float, "C09/Le/Int-Float", (a: i64, b: f64), { agree(3, Expr::Int(a), Expr::Float(b)) });
 vpv_cell!(#[kani::stub(eval_filter_expr, stub_eval_filter_expr)] #[kani::stub(collect_emitted_event, stub_collect_emitted_event)] #[kani::stub(call_user_function, stub_call_user_function)] c09_le_float_int, "C09/Le/Float-Int", (a: f64, b: i64), { agree(3, Expr::Float(a), Expr::Int(b)) });
 vpv_cell!(#[kani::stub(eval_filter_expr, stub_eval_filter_expr)] #[kani::stub(collect_emitted_event, stub_collect_emitted_event)] #[kani::stub(call_user_function, stub_call_user_function)] c09_le_float_float, "C09/Le/Float-Float", (a: f64, b: f64), { agree(3, Expr::Float(a), Expr::Float(b)) });
 vpv_cell!(#[kani::stub(eval_filter_expr, stub_eval_filter_expr)] #[kani::stub(collect_emitted_event, stub_collect_emitted_event)] #[kani::stub(call_user_function, stub_call_user_function)] #[kani::unwind(6)] c09_le_str_str, "C09/Le/Str-Str", (a: u8, b: u8), { agree(3, Expr::Str(ascii1(a)), Expr::Str(ascii1(b))) });
 vpv_cell!(#[kani::stub(eval_filter_expr, stub_eval_filter_expr)] #[kani::stub(collect_emitted_event, stub_collect_emitted_event)] #[kani::stub(call_user_function, stub_call_user_function)] c09_le_bool_bool, "C09/Le/Bool-Bool", (a: bool, b: bool), { agree(3, Expr::Bool(a), Expr::Bool(b)) });
-vpv_cell!(#[kani::stub(eval_filter_expr, stub_eval_filter_expr)] #[kani::stub(collect_emitted_event, stub_collect_emitted_event)] #[kani::stub(call_user_function, stub_call_user_function)] #[kani::unwind(6)] c09_le_int_str, "C09/Le/Int-Str", (a: i64, b: u8), { agree(3, Expr::Int(a), Expr::Str(ascii1(b))) });
-vpv_cell!(#[kani::stub(eval_filter_expr, stub_eval_filter_expr)] #[kani::stub(collect_emitted_event, stub_collect_emitted_event)] #[kani::stub(call_user_function, stub_call_user_function)] #[kani::unwind(6)] c09_le_str_int, "C09/Le/Str-Int", (a: u8, b: i64), { agree(3, Expr::Str(ascii1(a)), Expr::Int(b)) });
-vpv_cell!(#[kani::stub(eval_filter_expr, stub_eval_filter_expr)] #[kani::stub(collect_emitted_event, stub_collect_emitted_event)] #[kani::stub(call_user_function, stub_call_user_function)] c09_le_bool_int, "C09/Le/Bool-Int", (a: bool, b: i64), { agree(3, Expr::Bool(a), Expr::Int(b)) });
-vpv_cell!(#[kani::stub(eval_filter_expr, stub_eval_filter_expr)] #[kani::stub(collect_emitted_event, stub_collect_emitted_event)] #[kani::stub(call_user_function, stub_call_user_function)] c09_le_int_bool, "C09/Le/Int-Bool", (a: i64, b: bool), { agree(3, Expr::Int(a), Expr::Bool(b)) });
-vpv_cell!(#[kani::stub(eval_filter_expr, stub_eval_filter_expr)] #[kani::stub(collect_emitted_event, stub_collect_emitted_event)] #[kani::stub(call_user_function, stub_call_user_function)] c09_le_null_int, "C09/Le/Null-Int", (b: i64), { agree(3, Expr::Null, Expr::Int(b)) });
-vpv_cell!(#[kani::stub(eval_filter_expr, stub_eval_filter_expr)] #[kani::stub(collect_emitted_event, stub_collect_emitted_event)] #[kani::stub(call_user_function, stub_call_user_function)] c09_le_int_null, "C09/Le/Int-Null", (a: i64), { agree(3, Expr::Int(a), Expr::Null) });
-vpv_cell!(#[kani::stub(eval_filter_expr, stub_eval_filter_expr)] #[kani::stub(collect_emitted_event, stub_collect_emitted_event)] #[kani::stub(call_user_function, stub_call_user_function)] c09_le_null_null, "C09/Le/Null-Null", (), { agree(3, Expr::Null, Expr::Null) });
-vpv_cell!(#[kani::stub(eval_filter_expr, stub_eval_filter_expr)] #[kani::stub(collect_emitted_event, stub_collect_emitted_event)] #[kani::stub(call_user_function, stub_call_user_function)] #[kani::unwind(6)] c09_le_float_str, "C09/Le/Float-Str", (a: f64, b: u8), { agree(3, Expr::Float(a), Expr::Str(ascii1(b))) });
-vpv_cell!(#[kani::stub(eval_filter_expr, stub_eval_filter_expr)] #[kani::stub(collect_emitted_event, stub_collect_emitted_event)] #[kani::stub(call_user_function, stub_call_user_function)] #[kani::unwind(6)] c09_le_str_bool, "C09/Le/Str-Bool", (a: u8, b: bool), { agree(3, Expr::Str(ascii1(a)), Expr::Bool(b)) });
+vpv_cell!(#[kani::stub(eval_filter_expr, stub_eval_filter_expr)] #[kani::stub(collect_emitted_event, stub_collect_emitted_event)] #[kani::stub(call_user_function, stub_call_user_function)] #[kani::unwind(6)] c09_le_mismatched_kinds, "C09/Le/operands of different kinds (13 kind pairs: Int/Float/Bool/Str/Null mixed)", (i: i64, f: f64, b: bool, c: u8), {
+    let mut ok = true;
+    ok = ok && agree(3, Expr::Int(i), Expr::Str(ascii1(c)));   // Int-Str
+    ok = ok && agree(3, Expr::Str(ascii1(c)), Expr::Int(i));   // Str-Int
+    ok = ok && agree(3, Expr::Bool(b), Expr::Int(i));   // Bool-Int
+    ok = ok && agree(3, Expr::Int(i), Expr::Bool(b));   // Int-Bool
+    ok = ok && agree(3, Expr::Null, Expr::Int(i));   // Null-Int
+    ok = ok && agree(3, Expr::Int(i), Expr::Null);   // Int-Null
+    ok = ok && agree(3, Expr::Null, Expr::Null);   // Null-Null
+    ok = ok && agree(3, Expr::Float(f), Expr::Str(ascii1(c)));   // Float-Str
+    ok = ok && agree(3, Expr::Str(ascii1(c)), Expr::Bool(b));   // Str-Bool
+    ok = ok && agree(3, Expr::Float(f), Expr::Bool(b));   // Float-Bool
+    ok = ok && agree(3, Expr::Bool(b), Expr::Float(f));   // Bool-Float
+    ok = ok && agree(3, Expr::Null, Expr::Float(f));   // Null-Float
+    ok = ok && agree(3, Expr::Float(f), Expr::Null);   // Float-Null
+    ok });
 vpv_cell!(#[kani::stub(eval_filter_expr, stub_eval_filter_expr)] #[kani::stub(collect_emitted_event, stub_collect_emitted_event)] #[kani::stub(call_user_function, stub_call_user_function)] c09_gt_int_int, "C09/Gt/Int-Int", (a: i64, b: i64), { agree(4, Expr::Int(a), Expr::Int(b)) });
 vpv_cell!(#[kani::stub(eval_filter_expr, stub_eval_filter_expr)] #[kani::stub(collect_emitted_event, stub_collect_emitted_event)] #[kani::stub(call_user_function, stub_call_user_function)] c09_gt_int_float, "C09/Gt/Int-Float", (a: i64, b: f64), { agree(4, Expr::Int(a), Expr::Float(b)) });
 vpv_cell!(#[kani::stub(eval_filter_expr, stub_eval_filter_expr)] #[kani::stub(collect_emitted_event, stub_collect_emitted_event)] #[kani::stub(call_user_function, stub_call_user_function)] c09_gt_float_int, "C09/Gt/Float-Int", (a: f64, b: i64), { agree(4, Expr::Float(a), Expr::Int(b)) });
 vpv_cell!(#[kani::stub(eval_filter_expr, stub_eval_filter_expr)] #[kani::stub(collect_emitted_event, stub_collect_emitted_event)] #[kani::stub(call_user_function, stub_call_user_function)] c09_gt_float_float, "C09/Gt/Float-Float", (a: f64, b: f64), { agree(4, Expr::Float(a), Expr::Float(b)) });
 vpv_cell!(#[kani::stub(eval_filter_expr, stub_eval_filter_expr)] #[kani::stub(collect_emitted_event, stub_collect_emitted_event)] #[kani::stub(call_user_function, stub_call_user_function)] #[kani::unwind(6)] c09_gt_str_str, "C09/Gt/Str-Str", (a: u8, b: u8), { agree(4, Expr::Str(ascii1(a)), Expr::Str(ascii1(b))) });
 vpv_cell!(#[kani::stub(eval_filter_expr, stub_eval_filter_expr)] #[kani::stub(collect_emitted_event, stub_collect_emitted_event)] #[kani::stub(call_user_function, stub_call_user_function)] c09_gt_bool_bool, "C09/Gt/Bool-Bool", (a: bool, b: bool), { agree(4, Expr::Bool(a), Expr::Bool(b)) });
-vpv_cell!(#[kani::stub(eval_filter_expr, stub_eval_filter_expr)] #[kani::stub(collect_emitted_event, stub_collect_emitted_event)] #[kani::stub(call_user_function, stub_call_user_function)] #[kani::unwind(6)] c09_gt_int_str, "C09/Gt/Int-Str", (a: i64, b: u8), { agree(4, Expr::Int(a), Expr::Str(ascii1(b))) });
-vpv_cell!(#[kani::stub(eval_filter_expr, stub_eval_filter_expr)] #[kani::stub(collect_emitted_event, stub_collect_emitted_event)] #[kani::stub(call_user_function, stub_call_user_function)] #[kani::unwind(6)] c09_gt_str_int, "C09/Gt/Str-Int", (a: u8, b: i64), { agree(4, Expr::Str(ascii1(a)), Expr::Int(b)) });
-vpv_cell!(#[kani::stub(eval_filter_expr, stub_eval_filter_expr)] #[kani::stub(collect_emitted_event, stub_collect_emitted_event)] #[kani::stub(call_user_function, stub_call_user_function)] c09_gt_bool_int, "C09/Gt/Bool-Int", (a: bool, b: i64), { agree(4, Expr::Bool(a), Expr::Int(b)) });
-vpv_cell!(#[kani::stub(eval_filter_expr, stub_eval_filter_expr)] #[kani::stub(collect_emitted_event, stub_collect_emitted_event)] #[kani::stub(call_user_function, stub_call_user_function)] c09_gt_int_bool, "C09/Gt/Int-Bool", (a: i64, b: bool), { agree(4, Expr::Int(a), Expr::Bool(b)) });
-vpv_cell!(#[kani::stub(eval_filter_expr, stub_eval_filter_expr)] #[kani::stub(collect_emitted_event, stub_collect_emitted_event)] #[kani::stub(call_user_function, stub_call_user_function)] c09_gt_null_int, "C09/Gt/Null-Int", (b: i64), { agree(4, Expr::Null, Expr::Int(b)) });
-vpv_cell!(#[kani::stub(eval_filter_expr, stub_eval_filter_expr)] #[kani::stub(collect_emitted_event, stub_collect_emitted_event)] #[kani::stub(call_user_function, stub_call_user_function)] c09_gt_int_null, "C09/Gt/Int-Null", (a: i64), { agree(4, Expr::Int(a), Expr::Null) });
-vpv_cell!(#[kani::stub(eval_filter_expr, stub_eval_filter_expr)] #[kani::stub(collect_emitted_event, stub_collect_emitted_event)] #[kani::stub(call_user_function, stub_call_user_function)] c09_gt_null_null, "C09/Gt/Null-Null", (), { agree(4, Expr::Null, Expr::Null) });
-vpv_cell!(#[kani::stub(eval_filter_expr, stub_eval_filter_expr)] #[kani::stub(collect_emitted_event, stub_collect_emitted_event)] #[kani::stub(call_user_function, stub_call_user_function)] #[kani::unwind(6)] c09_gt_float_str, "C09/Gt/Float-Str", (a: f64, b: u8), { agree(4, Expr::Float(a), Expr::Str(ascii1(b))) });
-vpv_cell!(#[kani::stub(eval_filter_expr, stub_eval_filter_expr)] #[kani::stub(collect_emitted_event, stub_collect_emitted_event)] #[kani::stub(call_user_function, stub_call_user_function)] #[kani::unwind(6)] c09_gt_str_bool, "C09/Gt/Str-Bool", (a: u8, b: bool), { agree(4, Expr::Str(ascii1(a)), Expr::Bool(b)) });
+vpv_cell!(#[kani::stub(eval_filter_expr, stub_eval_filter_expr)] #[kani::stub(collect_emitted_event, stub_collect_emitted_event)] #[kani::stub(call_user_function, stub_call_user_function)] #[kani::unwind(6)] c09_gt_mismatched_kinds, "C09/Gt/operands of different kinds (13 kind pairs: Int/Float/Bool/Str/Null mixed)", (i: i64, f: f64, b: bool, c: u8), {
+    let mut ok = true;
+    ok = ok && agree(4, Expr::Int(i), Expr::Str(ascii1(c)));   // Int-Str
+    ok = ok && agree(4, Expr::Str(ascii1(c)), Expr::Int(i));   // Str-Int
+    ok = ok && agree(4, Expr::Bool(b), Expr::Int(i));   // Bool-Int
+    ok = ok && agree(4, Expr::Int(i), Expr::Bool(b));   // Int-Bool
+    ok = ok && agree(4, Expr::Null, Expr::Int(i));   // Null-Int
+    ok = ok && agree(4, Expr::Int(i), Expr::Null);   // Int-Null
+    ok = ok && agree(4, Expr::Null, Expr::Null);   // Null-Null
+    ok = ok && agree(4, Expr::Float(f), Expr::Str(ascii1(c)));   // Float-Str
+    ok = ok && agree(4, Expr::Str(ascii1(c)), Expr::Bool(b));   // Str-Bool
+    ok = ok && agree(4, Expr::Float(f), Expr::Bool(b));   // Float-Bool
+    ok = ok && agree(4, Expr::Bool(b), Expr::Float(f));   // Bool-Float
+    ok = ok && agree(4, Expr::Null, Expr::Float(f));   // Null-Float
+    ok = ok && agree(4, Expr::Float(f), Expr::Null);   // Float-Null
+    ok });
 vpv_cell!(#[kani::stub(eval_filter_expr, stub_eval_filter_expr)] #[kani::stub(collect_emitted_event, stub_collect_emitted_event)] #[kani::stub(call_user_function, stub_call_user_function)] c09_ge_int_int, "C09/Ge/Int-Int", (a: i64, b: i64), { agree(5, Expr::Int(a), Expr::Int(b)) });
 vpv_cell!(#[kani::stub(eval_filter_expr, stub_eval_filter_expr)] #[kani::stub(collect_emitted_event, stub_collect_emitted_event)] #[kani::stub(call_user_function, stub_call_user_function)] c09_ge_int_float, "C09/Ge/Int-Float", (a: i64, b: f64), { agree(5, Expr::Int(a), Expr::Float(b)) });
 vpv_cell!(#[kani::stub(eval_filter_expr, stub_eval_filter_expr)] #[kani::stub(collect_emitted_event, stub_collect_emitted_event)] #[kani::stub(call_user_function, stub_call_user_function)] c09_ge_float_int, "C09/Ge/Float-Int", (a: f64, b: i64), { agree(5, Expr::Float(a), Expr::Int(b)) });
 vpv_cell!(#[kani::stub(eval_filter_expr, stub_eval_filter_expr)] #[kani::stub(collect_emitted_event, stub_collect_emitted_event)] #[kani::stub(call_user_function, stub_call_user_function)] c09_ge_float_float, "C09/Ge/Float-Float", (a: f64, b: f64), { agree(5, Expr::Float(a), Expr::Float(b)) });
 vpv_cell!(#[kani::stub(eval_filter_expr, stub_eval_filter_expr)] #[kani::stub(collect_emitted_event, stub_collect_emitted_event)] #[kani::stub(call_user_function, stub_call_user_function)] #[kani::unwind(6)] c09_ge_str_str, "C09/Ge/Str-Str", (a: u8, b: u8), { agree(5, Expr::Str(ascii1(a)), Expr::Str(ascii1(b))) });
 vpv_cell!(#[kani::stub(eval_filter_expr, stub_eval_filter_expr)] #[kani::stub(collect_emitted_event, stub_collect_emitted_event)] #[kani::stub(call_user_function, stub_call_user_function)] c09_ge_bool_bool, "C09/Ge/Bool-Bool", (a: bool, b: bool), { agree(5, Expr::Bool(a), Expr::Bool(b)) });
-vpv_cell!(#[kani::stub(eval_filter_expr, stub_eval_filter_expr)] #[kani::stub(collect_emitted_event, stub_collect_emitted_event)] #[kani::stub(call_user_function, stub_call_user_function)] #[kani::unwind(6)] c09_ge_int_str, "C09/Ge/Int-Str", (a: i64, b: u8), { agree(5, Expr::Int(a), Expr::Str(ascii1(b))) });
-vpv_cell!(#[kani::stub(eval_filter_expr, stub_eval_filter_expr)] #[kani::stub(collect_emitted_event, stub_collect_emitted_event)] #[kani::stub(call_user_function, stub_call_user_function)] #[kani::unwind(6)] c09_ge_str_int, "C09/Ge/Str-Int", (a: u8, b: i64), { agree(5, Expr::Str(ascii1(a)), Expr::Int(b)) });
-vpv_cell!(#[kani::stub(eval_filter_expr, stub_eval_filter_expr)] #[kani::stub(collect_emitted_event, stub_collect_emitted_event)] #[kani::stub(call_user_function, stub_call_user_function)] c09_ge_bool_int, "C09/Ge/Bool-Int", (a: bool, b: i64), { agree(5, Expr::Bool(a), Expr::Int(b)) });
-vpv_cell!(#[kani::stub(eval_filter_expr, stub_eval_filter_expr)] #[kani::stub(collect_emitted_event, stub_collect_emitted_event)] #[kani::stub(call_user_function, stub_call_user_function)] c09_ge_int_bool, "C09/Ge/Int-Bool", (a: i64, b: bool), { agree(5, Expr::Int(a), Expr::Bool(b)) });
-vpv_cell!(#[kani::stub(eval_filter_expr, stub_eval_filter_expr)] #[kani::stub(collect_emitted_event, stub_collect_emitted_event)] #[kani::stub(call_user_function, stub_call_user_function)] c09_ge_null_int, "C09/Ge/Null-Int", (b: i64), { agree(5, Expr::Null, Expr::Int(b)) });
-vpv_cell!(#[kani::stub(eval_filter_expr, stub_eval_filter_expr)] #[kani::stub(collect_emitted_event, stub_collect_emitted_event)] #[kani::stub(call_user_function, stub_call_user_function)] c09_ge_int_null, "C09/Ge/Int-Null", (a: i64), { agree(5, Expr::Int(a), Expr::Null) });
-vpv_cell!(#[kani::stub(eval_filter_expr, stub_eval_filter_expr)] #[kani::stub(collect_emitted_event, stub_collect_emitted_event)] #[kani::stub(call_user_function, stub_call_user_function)] c09_ge_null_null, "C09/Ge/Null-Null", (), { agree(5, Expr::Null, Expr::Null) });
-vpv_cell!(#[kani::stub(eval_filter_expr, stub_eval_filter_expr)] #[kani::stub(collect_emitted_event, stub_collect_emitted_event)] #[kani::stub(call_user_function, stub_call_user_function)] #[kani::unwind(6)] c09_ge_float_str, "C09/Ge/Float-Str", (a: f64, b: u8), { agree(5, Expr::Float(a), Expr::Str(ascii1(b))) });
-vpv_cell!(#[kani::stub(eval_filter_expr, stub_eval_filter_expr)] #[kani::stub(collect_emitted_event, stub_collect_emitted_event)] #[kani::stub(call_user_function, stub_call_user_function)] #[kani::unwind(6)] c09_ge_str_bool, "C09/Ge/Str-Bool", (a: u8, b: bool), { agree(5, Expr::Str(ascii1(a)), Expr::Bool(b)) });
+vpv_cell!(#[kani::stub(eval_filter_expr, stub_eval_filter_expr)] #[kani::stub(collect_emitted_event, stub_collect_emitted_event)] #[kani::stub(call_user_function, stub_call_user_function)] #[kani::unwind(6)] c09_ge_mismatched_kinds, "C09/Ge/operands of different kinds (13 kind pairs: Int/Float/Bool/Str/Null mixed)", (i: i64, f: f64, b: bool, c: u8), {
+    let mut ok = true;
+    ok = ok && agree(5, Expr::Int(i), Expr::Str(ascii1(c)));   // Int-Str
+    ok = ok && agree(5, Expr::Str(ascii1(c)), Expr::Int(i));   // Str-Int
+    ok = ok && agree(5, Expr::Bool(b), Expr::Int(i));   // Bool-Int
+    ok = ok && agree(5, Expr::Int(i), Expr::Bool(b));   // Int-Bool
+    ok = ok && agree(5, Expr::Null, Expr::Int(i));   // Null-Int
+    ok = ok && agree(5, Expr::Int(i), Expr::Null);   // Int-Null
+    ok = ok && agree(5, Expr::Null, Expr::Null);   // Null-Null
+    ok = ok && agree(5, Expr::Float(f), Expr::Str(ascii1(c)));   // Float-Str
+    ok = ok && agree(5, Expr::Str(ascii1(c)), Expr::Bool(b));   // Str-Bool
+    ok = ok && agree(5, Expr::Float(f), Expr::Bool(b));   // Float-Bool
+    ok = ok && agree(5, Expr::Bool(b), Expr::Float(f));   // Bool-Float
+    ok = ok && agree(5, Expr::Null, Expr::Float(f));   // Null-Float
+    ok = ok && agree(5, Expr::Float(f), Expr::Null);   // Float-Null
+    ok });
 vpv_cell!(#[kani::unwind(6)] c09_pred_eq, "C09/expr_to_sase_predicate/Eq/field-op-literal", (v: i64), {
     let (b, c) = ops(0);
     let e = Expr::Binary { op: b, left: Box::new(Expr::Ident(String::from("f"))), right: Box::new(Expr::Int(v)) };
@@ -171,4 +213,4 @@ vpv_cell!(#[kani::unwind(6)] c09_pred_ge, "C09/expr_to_sase_predicate/Ge/field-o
     let ok = match &p { Some(Predicate::Compare { field, op, value }) => field.as_str() == "f" && *op == c && matches!(value, Value::Int(x) if *x == v), _ => false };
     std::mem::forget(p); std::mem::forget(e);
     ok });
-vpv_replay_table!(c09_eq_int_int, c09_eq_int_float, c09_eq_float_int, c09_eq_float_float, c09_eq_str_str, c09_eq_bool_bool, c09_eq_int_str, c09_eq_str_int, c09_eq_bool_int, c09_eq_int_bool, c09_eq_null_int, c09_eq_int_null, c09_eq_null_null, c09_eq_float_str, c09_eq_str_bool, c09_noteq_int_int, c09_noteq_int_float, c09_noteq_float_int, c09_noteq_float_float, c09_noteq_str_str, c09_noteq_bool_bool, c09_noteq_int_str, c09_noteq_str_int, c09_noteq_bool_int, c09_noteq_int_bool, c09_noteq_null_int, c09_noteq_int_null, c09_noteq_null_null, c09_noteq_float_str, c09_noteq_str_bool, c09_lt_int_int, c09_lt_int_float, c09_lt_float_int, c09_lt_float_float, c09_lt_str_str, c09_lt_bool_bool, c09_lt_int_str, c09_lt_str_int, c09_lt_bool_int, c09_lt_int_bool, c09_lt_null_int, c09_lt_int_null, c09_lt_null_null, c09_lt_float_str, c09_lt_str_bool, c09_le_int_int, c09_le_int_float, c09_le_float_int, c09_le_float_float, c09_le_str_str, c09_le_bool_bool, c09_le_int_str, c09_le_str_int, c09_le_bool_int, c09_le_int_bool, c09_le_null_int, c09_le_int_null, c09_le_null_null, c09_le_float_str, c09_le_str_bool, c09_gt_int_int, c09_gt_int_float, c09_gt_float_int, c09_gt_float_float, c09_gt_str_str, c09_gt_bool_bool, c09_gt_int_str, c09_gt_str_int, c09_gt_bool_int, c09_gt_int_bool, c09_gt_null_int, c09_gt_int_null, c09_gt_null_null, c09_gt_float_str, c09_gt_str_bool, c09_ge_int_int, c09_ge_int_float, c09_ge_float_int, c09_ge_float_float, c09_ge_str_str, c09_ge_bool_bool, c09_ge_int_str, c09_ge_str_int, c09_ge_bool_int, c09_ge_int_bool, c09_ge_null_int, c09_ge_int_null, c09_ge_null_null, c09_ge_float_str, c09_ge_str_bool, c09_pred_eq, c09_pred_noteq, c09_pred_lt, c09_pred_le, c09_pred_gt, c09_pred_ge);
+vpv_replay_table!(c09_eq_int_int, c09_eq_int_float, c09_eq_float_int, c09_eq_float_float, c09_eq_str_str, c09_eq_bool_bool, c09_eq_mismatched_kinds, c09_noteq_int_int, c09_noteq_int_float, c09_noteq_float_int, c09_noteq_float_float, c09_noteq_str_str, c09_noteq_bool_bool, c09_noteq_mismatched_kinds, c09_lt_int_int, c09_lt_int_float, c09_lt_float_int, c09_lt_float_float, c09_lt_str_str, c09_lt_bool_bool, c09_lt_mismatched_kinds, c09_le_int_int, c09_le_int_float, c09_le_float_int, c09_le_float_float, c09_le_str_str, c09_le_bool_bool, c09_le_mismatched_kinds, c09_gt_int_int, c09_gt_int_float, c09_gt_float_int, c09_gt_float_float, c09_gt_str_str, c09_gt_bool_bool, c09_gt_mismatched_kinds, c09_ge_int_int, c09_ge_int_float, c09_ge_float_int, c09_ge_float_float, c09_ge_str_str, c09_ge_bool_bool, c09_ge_mismatched_kinds, c09_pred_eq, c09_pred_noteq, c09_pred_lt, c09_pred_le, c09_pred_gt, c09_pred_ge);
